@@ -95,6 +95,9 @@ type Path struct {
 	strConsts  map[string]*Object
 	typeIDs    map[string]int
 	lockEvents bool
+	interleave   *FuncV            // vf.Interleave: pending operation of another thread
+	inInterleave bool
+	heldLocks    map[*Object][2]int // per mutex: holds by the main thread / by the interleaved operation
 	guardedMaps map[*MapObj]string // vf.GuardMap: accesses are recorded as events "map:<name>"
 	guard      *Term // extra guard active during merged (speculative) evaluation; nil otherwise
 	noFork     bool  // set during speculative merge evaluation
